@@ -1,6 +1,6 @@
 SPECIFICATION Spec
 CONSTANTS
-  Kinds = {"str", "addr"}
+  Kinds = {"str", "addr", "bool"}
   Emit = TRUE
 INVARIANTS ValueTwoWays LeapSanity EmitReplay
 CHECK_DEADLOCK FALSE
